@@ -241,17 +241,21 @@ func addScrubFieldsToSelectionSet(ctx *PlanningContext, selectionSet ast.Selecti
 }
 
 func addSelectionSetToSanitizedResult(s ast.SelectionSet, ss ...ast.Selection) ast.SelectionSet {
-	ss = lo.Filter(ss, func(sel ast.Selection, i int) bool {
-		f, ok := sel.(*ast.Field)
+	for _, sel := range ss {
 		// a field is already there when its response key is taken, whatever field took it
 		// ({ x: name name } selects two fields)
-		if ok && selectionSetHasResponseKey(s, fieldResponseKey(f)) {
-			return false
+		if f, ok := sel.(*ast.Field); ok {
+			if existing := fieldWithResponseKey(s, fieldResponseKey(f)); existing != nil {
+				// selected again through a fragment: the sub-selections merge, as execution merges them
+				if existing != f && len(f.SelectionSet) > 0 {
+					existing.SelectionSet = addSelectionSetToSanitizedResult(existing.SelectionSet, f.SelectionSet...)
+				}
+				continue
+			}
 		}
-		return true
-
-	})
-	return append(s, ss...)
+		s = append(s, sel)
+	}
+	return s
 }
 
 func fieldResponseKey(f *ast.Field) string {
@@ -261,13 +265,13 @@ func fieldResponseKey(f *ast.Field) string {
 	return f.Name
 }
 
-func selectionSetHasResponseKey(ss ast.SelectionSet, key string) bool {
+func fieldWithResponseKey(ss ast.SelectionSet, key string) *ast.Field {
 	for _, selection := range ss {
 		if field, ok := selection.(*ast.Field); ok && fieldResponseKey(field) == key {
-			return true
+			return field
 		}
 	}
-	return false
+	return nil
 }
 
 // copySelectionSet copies the selections (not the definitions they point to)
